@@ -20,41 +20,6 @@ theorem split_unique {w : World} : ∀ (pre pre' : List Nat) (dof dof' : Nat) (p
       (fun x hx => hp x (List.mem_cons_of_mem _ hx)) hd (fun x hx => hp' x (List.mem_cons_of_mem _ hx)) hd'
     exact ⟨by rw [h.1, e1], e2, e3⟩
 
-/-- A quiet update of a good file `t` (same content, still good, `VerR` unchanged) keeps `Ver`. -/
-theorem Ver_upd_quiet {rank R X t w w'} (hi : Inv rank R X w) (h : OffT t w w')
-    (hc : contentOf w' t = contentOf w t) (hgen : (w'.recs t).isGenerated = (w.recs t).isGenerated)
-    (hgood : Good w R t → Good w' R t) (hvr : VerR w' R t → VerR w R t)
-    (hT : VerR w' R t → RecCur w' t ∧
-      ((w'.recs t).isGenerated = true → ∀ d ∈ w'.deps, d.target = t →
-        (d.modeM = true → Good w' R d.source) ∧ (d.modeM = false → existsF w' d.source = false))) :
-    Ver R w' := by
-  have hfro : ∀ x, Good w R x → contentOf w' x = contentOf w x ∧ (w'.recs x).isGenerated = (w.recs x).isGenerated := by
-    intro x _
-    by_cases e : x = t
-    · subst e; exact ⟨hc, hgen⟩
-    · exact ⟨contentOf_congr (h.fs x e), by rw [h.recs x e]⟩
-  have hup : ∀ x, Good w R x → UpToDateD w' x := fun x hx =>
-    good_upToDate hi h.rules h.progs (fun y hy => contentOf_congr (h.fsPlain hi.base hy)) hfro (rank x + 1) x
-      (Nat.lt_succ_self _) hx
-  have hgd : ∀ x, Good w R x → Good w' R x := by
-    intro x hx
-    by_cases e : x = t
-    · subst e; exact hgood hx
-    · exact (h.good e R).2 hx
-  intro f hv
-  by_cases e : f = t
-  · subst e
-    exact ⟨(hT hv).1, hup f (Or.inl (hvr hv)), (hT hv).2⟩
-  · have hv0 := (h.verR e R).1 hv
-    obtain ⟨hrc, _, hcl⟩ := hi.ver f hv0
-    refine ⟨(h.recCur e).2 hrc, hup f (Or.inl hv0), ?_⟩
-    rw [h.recs f e]
-    intro hg d hd hdt
-    have hd0 := (h.rows d (by rw [hdt]; exact e)).1 hd
-    obtain ⟨h1, h2⟩ := hcl hg d hd0 hdt
-    exact ⟨fun hm => hgd _ (h1 hm), fun hm => by
-      rw [existsF_congr (h.fsPlain hi.base (hi.base.cPlain d hd0 hm))]; exact h2 hm⟩
-
 /-- What recording the forced rebuild of a verified target does to its record: the marks may move to `R`. -/
 structure IdemFields (R t : Nat) (out : Option Content) (w w' : World) : Prop where
   rules : w'.rules = w.rules
